@@ -224,5 +224,31 @@ func VerifC13Render() {
 		nd.Assert(err3 == nil, "reference-renders")
 		nd.Assert(trimmed == want, "B-reference-trimmer")
 	}
+	if k >= 5 {
+		// comment and raw: hyphens on the inner sides of the block's tags face content that is
+		// dropped (comment) or verbatim (raw): they remove nothing; the outer ones trim the
+		// adjacent text as usual
+		t0, t1 := ps[0].text, ps[4].text
+		outerFacing := true
+		if ps[1].trimL {
+			if len(t0) == 0 {
+				outerFacing = false
+			}
+			t0 = c13TrimRight(t0)
+		}
+		if ps[3].trimR {
+			if len(t1) == 0 {
+				outerFacing = false
+			}
+			t1 = c13TrimLeft(t1)
+		}
+		if outerFacing {
+			want := t0 + t1
+			if k == 6 {
+				want = t0 + ps[2].text + t1
+			}
+			nd.Assert(trimmed == want, "B-comment-raw-inner-hyphens-are-inert")
+		}
+	}
 	nd.Reach("C13.render")
 }
